@@ -8,6 +8,9 @@ ASSUMPTIONS = [
     "E1 step lemma (.conn): EBLIFParser.merge_wires(w1, w2) from an arbitrary well-formed model (two cables, three wires, port and "
     "instance pins attached symbolically): the new net carries exactly the union of both pin sets, both old wires are gone, other "
     "nets untouched, model well-formed; python's index-based list iteration under mutation is modelled",
+    "E1 sequence lemma: a parser built by its real __init__ runs connect_pin_to_wire(pin, name, i) while reading model A and then "
+    "while reading model B (symbolic names over {x, y} for the requests and for the one existing net of each model, i in 0..1): each "
+    "pin ends on bit i of a net with that name owned by the model being read, created there if absent; nets never leak between models",
     "outside: statement-order glue, line continuation, .names covers, whole files",
 ]
 
@@ -17,5 +20,7 @@ def jobs(tier):
     out = [e2job("C18", "c18", fn, tmo, tier) for fn in
            ("h_indexed_name_round_trip", "h_scalar_name_is_index_zero", "h_never_crashes_on_bracket_text")]
     out.append(dict(name="C18/merge_wires", engine="E1/symheap", module="vf.e1.eblif_jobs", func="merge_wires_job",
+                    timeout=1500, args=dict(tier=tier)))
+    out.append(dict(name="C18/connect_two_models", engine="E1/symheap", module="vf.e1.eblif_jobs", func="connect_two_models_job",
                     timeout=1500, args=dict(tier=tier)))
     return out
